@@ -75,35 +75,36 @@ theorem reason_roundtrip (hash : Nat → Nat) (hinj : HashInj hash) (t : Reasons
     reasonGet (reasonSet hash t r).1 (reasonSet hash t r).2 = some r :=
   Refinery.Lemmas.SentCache.reason_roundtrip hash hinj t r hinv
 
-/-- **kept_answered** — after any history, a trace that is still in the kept list and is not in
-the dropped filter is answered "kept" by `CheckTrace`, with the rate (as `uint32`) and the reason
+/-- **kept_answered** — after any history, a trace that is still in the kept list and is neither in
+the dropped filter nor in the recent-drop set is answered "kept" by `CheckTrace`, with the rate (as `uint32`) and the reason
 of its most recent kept record. -/
 theorem kept_answered (cfg : Cfg) (hinj : HashInj cfg.hash) (kc dc : Nat) (ops : List Op) (id : Nat)
     (e : Entry) (hfind : lruFind (run cfg kc dc ops).kept id = some e)
-    (hnd : (run cfg kc dc ops).cur.ids.contains id = false) :
+    (hnd : (run cfg kc dc ops).cur.ids.contains id = false)
+    (hnr : recentHas (run cfg kc dc ops) id = false) :
     ∃ rate why, lastKept ops id = some (rate, why) ∧
       (step cfg (run cfg kc dc ops) (.checkTrace id false)).2 = .ans (.kept (u32 rate) why e.ev e.se e.sl e.sp) :=
-  Refinery.Lemmas.SentCache.kept_answered cfg hinj kc dc ops id e hfind hnd
+  Refinery.Lemmas.SentCache.kept_answered cfg hinj kc dc ops id e hfind hnd hnr
 
 /-- **kept_answered_recent** — the property's kept clause: after any resize-free history, every
-trace among the first `cap` distinct entries of the touch sequence (most recent first) that the
-dropped filter does not claim is answered "kept" with its recorded rate and reason. -/
+trace among the first `cap` distinct entries of the touch sequence (most recent first) that neither the
+dropped filter nor the recent-drop set claims is answered "kept" with its recorded rate and reason. -/
 theorem kept_answered_recent (cfg : Cfg) (hinj : HashInj cfg.hash) (kc dc : Nat) (ops : List Op) (id : Nat)
     (hnores : ∀ o ∈ ops, isResize o = false)
     (hrecent : id ∈ (dedup (touches (transcript cfg (init cfg kc dc) ops))).take kc)
-    (hnd : (run cfg kc dc ops).cur.ids.contains id = false) :
+    (hnd : (run cfg kc dc ops).cur.ids.contains id = false)
+    (hnr : recentHas (run cfg kc dc ops) id = false) :
     ∃ rate why ev se sl sp, lastKept ops id = some (rate, why) ∧
       (step cfg (run cfg kc dc ops) (.checkTrace id false)).2 = .ans (.kept (u32 rate) why ev se sl sp) :=
-  Refinery.Lemmas.SentCache.kept_answered_recent cfg hinj kc dc ops id hnores hrecent hnd
+  Refinery.Lemmas.SentCache.kept_answered_recent cfg hinj kc dc ops id hnores hrecent hnd hnr
 
 /-! ## Dropped side -/
 
-/-- **dropped_wins** — in every state, an id the current dropped filter holds is answered
-"dropped" by both lookups, and an id the recent-drop set holds by `CheckSpan`, whatever the kept
-list says (the kept list is not even consulted); a filter false positive (`fp`) has the same
-effect. -/
+/-- **dropped_wins** — in every state, an id the current dropped filter or the recent-drop set
+holds is answered "dropped" by both lookups, whatever the kept list says (the kept list is not
+even consulted); a filter false positive (`fp`) has the same effect. -/
 theorem dropped_wins (cfg : Cfg) (s : St) (id kind : Nat) (fp : Bool) :
-    (id ∈ s.cur.ids → (step cfg s (.checkTrace id fp)).2 = .ans .dropped) ∧
+    (id ∈ s.cur.ids ∨ recentHas s id = true → (step cfg s (.checkTrace id fp)).2 = .ans .dropped) ∧
     (id ∈ s.cur.ids ∨ recentHas s id = true → (step cfg s (.checkSpan id kind fp)).2 = .ans .dropped) ∧
     (step cfg s (.checkTrace id true)).2 = .ans .dropped :=
   ⟨dropped_wins_trace cfg s id fp, dropped_wins_span cfg s id kind fp, false_positive_answers_dropped cfg s id⟩
@@ -153,22 +154,23 @@ theorem dropped_survives_rotation (cfg : Cfg) (s : St) (a : Adv) (f : Filter) (i
     (hrot : rotates cfg s (.maintain a) = true) : id ∈ (step cfg s (.maintain a)).1.cur.ids :=
   Refinery.Lemmas.SentCache.dropped_survives_rotation cfg s a f id hf hin hl hrot
 
-/-- **recent_covers_gap** — after any history, a drop record is answered "dropped" by `CheckSpan`
-through whatever happens next (queue overflow, no drain at all, filter rotations, kept records of
-the same trace) as long as the clock has advanced by at most the recent-drop TTL since — the expiry
-instant included. -/
+/-- **recent_covers_gap** — after any history, a drop record is answered "dropped" by both
+lookups through whatever happens next (queue overflow, no drain at all, filter rotations, kept
+records of the same trace) as long as the clock has advanced by at most the recent-drop TTL since
+— the expiry instant included. -/
 theorem recent_covers_gap (cfg : Cfg) (kc dc : Nat) (pre suf : List Op) (id kind : Nat) (fp : Bool)
     (hadv : (advTotal suf : Int) ≤ cfg.ttl) :
-    (step cfg (run cfg kc dc (pre ++ [.recDrop id] ++ suf)) (.checkSpan id kind fp)).2 = .ans .dropped :=
+    (step cfg (run cfg kc dc (pre ++ [.recDrop id] ++ suf)) (.checkSpan id kind fp)).2 = .ans .dropped ∧
+    (step cfg (run cfg kc dc (pre ++ [.recDrop id] ++ suf)) (.checkTrace id fp)).2 = .ans .dropped :=
   Refinery.Lemmas.SentCache.recent_covers_gap cfg kc dc pre suf id kind fp hadv
 
-/-! ## Where the code falls short of the statement: `CheckTrace` ignores the recent-drop set -/
+/-! ## Right after the record (repaired by /repo 10253ac: `CheckTrace` consults the recent-drop set) -/
 
 /-- The full-strength reading of "a trace recorded as dropped is answered dropped": right after
-the record (queue not full, no clock advance) *both* lookups answer "dropped". -/
+the record (no clock advance) *both* lookups answer "dropped" — whether or not the add queue has
+been drained, or even had room. -/
 def FullStatement : Prop :=
-  ∀ (cfg : Cfg) (kc dc : Nat) (pre : List Op) (id kind : Nat),
-    (run cfg kc dc pre).queue.length < cfg.depth →
+  ∀ (cfg : Cfg) (kc dc : Nat) (pre : List Op) (id kind : Nat), 0 ≤ cfg.ttl →
     (step cfg (run cfg kc dc (pre ++ [.recDrop id])) (.checkSpan id kind false)).2 = .ans .dropped ∧
     (step cfg (run cfg kc dc (pre ++ [.recDrop id])) (.checkTrace id false)).2 = .ans .dropped
 
@@ -176,35 +178,20 @@ def cfg0 : Cfg :=
   { slots := fun _ => 8, hash := fun r => r, depth := 1000, futPm := 500, rotPm := 990, minFull := 4,
     ttl := 3000000000 }
 
-/-- Witness: `Record(1, dropped); CheckTrace(1)` on a fresh cache answers "not found": until the
-add queue is drained only `CheckSpan` knows about the drop. -/
-theorem full_statement_refuted : ¬ FullStatement := by
-  intro h
-  have := (h cfg0 2 8 [] 1 0 (by decide)).2
-  revert this
-  decide
+/-- **full_statement** — holds for every history since the repair (before it, `rd 1; ct 1`
+answered "not found": corpus/C31/checktrace-gap.ops keeps that witness as a regression). -/
+theorem full_statement : FullStatement := by
+  intro cfg kc dc pre id kind h0
+  have := Refinery.Lemmas.SentCache.recent_covers_gap cfg kc dc pre [] id kind false (by simpa [advTotal] using h0)
+  simpa using this
 
-/-- …and with a kept record of the same trace it answers "kept": dropped does not win there. -/
-example :
-    (step cfg0 (run cfg0 2 8 [.recKept 1 10 3 0 0 0 1, .recDrop 1]) (.checkTrace 1 false)).2
-      = .ans (.kept 10 3 0 0 0 1) := by decide
-
-/-- **dropped_answered_partial** — what does hold right after the record: `CheckSpan` answers
-"dropped" at once (and for the TTL, `recent_covers_gap`); `CheckTrace` does from the first drain that
-takes the id (`dropped_until_rotation_run`). -/
-theorem dropped_answered_partial (cfg : Cfg) (kc dc : Nat) (pre : List Op) (id kind : Nat) (a : Adv)
-    (h0 : 0 ≤ cfg.ttl)
-    (hroom : (run cfg kc dc pre).queue.length < cfg.depth)
-    (hk : a.k = (run cfg kc dc pre).queue.length + 1)
-    (hvalid : (drainCore cfg (run cfg kc dc (pre ++ [.recDrop id])) a).isSome = true)
-    (hkeep : a.lostC.contains id = false) :
-    (step cfg (run cfg kc dc (pre ++ [.recDrop id])) (.checkSpan id kind false)).2 = .ans .dropped ∧
-    (step cfg (run cfg kc dc (pre ++ [.recDrop id, .drain a])) (.checkTrace id false)).2 = .ans .dropped := by
-  refine ⟨?_, ?_⟩
-  · have := recent_covers_gap cfg kc dc pre [] id kind false (by simpa [advTotal] using h0)
-    simpa using this
-  · have := (dropped_until_rotation_run cfg kc dc pre [] id a hroom hk hvalid hkeep (by simp) trivial false 0).1
-    simpa using this
+-- the former witnesses now answer "dropped"
+example : (step cfg0 (run cfg0 2 8 [.recDrop 1]) (.checkTrace 1 false)).2 = .ans .dropped := by decide
+example : (step cfg0 (run cfg0 2 8 [.recKept 1 10 3 0 0 0 1, .recDrop 1]) (.checkTrace 1 false)).2
+    = .ans .dropped := by decide
+-- CheckTrace does not refresh the TTL: never drained, one tick past the TTL it is "kept" again
+example : (step cfg0 (run cfg0 2 8 [.recKept 1 10 3 0 0 0 1, .recDrop 1, .adv 3000000000, .checkTrace 1 false,
+    .adv 1]) (.checkTrace 1 false)).2 = .ans (.kept 10 3 0 0 0 1) := by decide
 
 /-! ## The constants, as read from the compiled code -/
 
